@@ -460,19 +460,26 @@ struct SetAdapter {
       const std::vector<Val> &x = op.vals;
       switch (op.kind) {
         case S_FROM_VECTOR: {
-          // the vector's elements end up owned by the set: they are created "by the containers"
+          // the vector's elements end up owned by the set: they are created "by the containers" (but no fault is
+          // injected while the argument is being prepared)
+          int fk = G.faultKind;
+          G.faultKind = F_NONE;
           G.armed = true;
           Vec vec;
           for (size_t i = 0; i < x.size(); ++i) vec.emplace_back(x[i].key, x[i].pay);
           G.armed = false;
+          G.faultKind = fk;
           reconstruct(self, op.cmpMode, [&](void *at) {
             if (op.variant & 1) ::new (at) S(std::move(vec), C(op.cmpMode), A()); else ::new (at) S(std::move(vec), C(op.cmpMode));
           });
         } break;
         case S_ASSIGN_VECTOR: {
+          int fk = G.faultKind;
+          G.faultKind = F_NONE;
           G.armed = true;
           Vec vec;
           for (size_t i = 0; i < x.size(); ++i) vec.emplace_back(x[i].key, x[i].pay);
+          G.faultKind = fk;
           s = std::move(vec);
           G.armed = false;
         } break;
